@@ -24,7 +24,7 @@ EXPLANATION = (
     "embedded grouped. NOT decided: that draws validate (hypothesis search + numpy/pandas dtype conversion)."
 )
 LEVEL_RULE = "one obligation per (check strategy, path) / parameter / fallback site"
-FLOORS = {"R1": 14, "R2": 30, "R3": 14, "R4": 1, "R5": 3, "R6": 2}
+FLOORS = {"R1": 14, "R2": 30, "R3": 14, "R4": 1, "R5": 3, "R6": 2, "R7": 3}
 
 PD = "pandera/backends/pandas/builtin_checks.py"
 ST = "pandera/strategies/pandas_strategies.py"
@@ -104,7 +104,67 @@ class StratEval:
                 continue
             if isinstance(s, ast.Raise):
                 raise Ret(("RAISE", txt(s.exc)[:40] if s.exc else ""))
+            if isinstance(s, ast.FunctionDef) and len(s.args.args) == 1 and not s.decorator_list:
+                env[s.name] = ("localfn", s, dict(env))
+                continue
             raise Bail(f"{self.fn.name}: unsupported statement `{txt(s)[:50]}`")
+
+    # -- element predicates written as a lambda or a local def -------------------------------
+    def pexpr(self, e, x, env, a):
+        """Predicate over the element `x` denoted by expression e."""
+        from ..preds import CMPOP, mk_and
+        if isinstance(e, ast.Call) and isinstance(e.func, ast.Name) and e.func.id == "bool" and len(e.args) == 1:
+            return self.pexpr(e.args[0], x, env, a)
+        if isinstance(e, ast.BoolOp) and isinstance(e.op, ast.And):
+            out = self.pexpr(e.values[0], x, env, a)
+            for v in e.values[1:]:
+                out = mk_and(out, self.pexpr(v, x, env, a))
+            return out
+        if isinstance(e, ast.BinOp) and isinstance(e.op, ast.BitAnd):
+            return mk_and(self.pexpr(e.left, x, env, a), self.pexpr(e.right, x, env, a))
+        if isinstance(e, ast.UnaryOp) and isinstance(e.op, ast.Not):
+            return ("not", self.pexpr(e.operand, x, env, a))
+        if isinstance(e, ast.IfExp):
+            return self.pexpr(e.body if self.cond(e.test, env, a) else e.orelse, x, env, a)
+        if isinstance(e, ast.Name) and isinstance(env.get(e.id), tuple) and env[e.id] and env[e.id][0] == "elpred":
+            return env[e.id][1]
+        if isinstance(e, ast.Compare):
+            operands = [e.left] + list(e.comparators)
+            out = None
+            for l, op, r in zip(operands, e.ops, operands[1:]):
+                lx = isinstance(l, ast.Name) and l.id == x
+                rx = isinstance(r, ast.Name) and r.id == x
+                if lx == rx:
+                    raise Bail(f"{self.fn.name}: comparison without exactly one element operand `{txt(e)}`")
+                other = self.ev(r if lx else l, env, a)
+                if isinstance(op, ast.In) and lx:
+                    p = ("isin", "D", other)
+                elif isinstance(op, ast.NotIn) and lx:
+                    p = ("not", ("isin", "D", other))
+                elif type(op) in CMPOP:
+                    p = mk_cmp(CMPOP[type(op)], "D" if lx else other, other if lx else "D")
+                else:
+                    raise Bail(f"{self.fn.name}: unsupported comparison `{txt(e)}`")
+                out = p if out is None else mk_and(out, p)
+            return out
+        raise Bail(f"{self.fn.name}: unsupported element predicate `{txt(e)[:60]}`")
+
+    def localfn(self, node, env, a):
+        x = node.args.args[0].arg
+        env = dict(env)
+        for s in node.body:
+            if isinstance(s, ast.Expr) and isinstance(s.value, ast.Constant):
+                continue
+            if isinstance(s, ast.Assign) and len(s.targets) == 1 and isinstance(s.targets[0], ast.Name):
+                try:
+                    env[s.targets[0].id] = ("elpred", self.pexpr(s.value, x, env, a))
+                except Bail:
+                    env[s.targets[0].id] = self.ev(s.value, env, a)
+                continue
+            if isinstance(s, ast.Return) and s.value is not None:
+                return ("pred", self.pexpr(s.value, x, env, a))
+            raise Bail(f"{self.fn.name}: unsupported statement in local predicate `{txt(s)[:50]}`")
+        raise Bail(f"{self.fn.name}: local predicate {node.name} returns nothing")
 
     def ev(self, e, env, a):
         if isinstance(e, ast.Name):
@@ -144,6 +204,8 @@ class StratEval:
             raise Bail("lambda arity")
         x = e.args.args[0].arg
         b = e.body
+        if isinstance(b, (ast.BoolOp, ast.BinOp, ast.IfExp)) or (isinstance(b, ast.Compare) and not (len(b.ops) == 1 and isinstance(b.left, ast.Name) and b.left.id == x)):
+            return ("pred", self.pexpr(b, x, env, a))
         if isinstance(b, ast.Compare) and len(b.ops) == 1 and isinstance(b.left, ast.Name) and b.left.id == x:
             rhs = self.ev(b.comparators[0], env, a)
             if isinstance(b.ops[0], ast.In):
@@ -178,6 +240,8 @@ class StratEval:
             recv = self.ev(f.value, env, a)
             if f.attr == "filter":
                 p = args[0]
+                if isinstance(p, tuple) and p[0] == "localfn":
+                    p = self.localfn(p[1], p[2], a)
                 if not (isinstance(p, tuple) and p[0] == "pred"):
                     raise Bail(f"{self.fn.name}: unsupported filter `{txt(e.args[0])}`")
                 return ("filtered", recv, p[1])
@@ -332,6 +396,54 @@ def conjuncts_of(p):
     return [p]
 
 
+def _is_fallback_def(g):
+    rets = [s for s in function_stmts(g) if isinstance(s, ast.Return) and s.value is not None]
+    return bool(rets) and all(isinstance(r.value, ast.Call) and isinstance(r.value.func, ast.Attribute) and r.value.func.attr == "filter" for r in rets)
+
+
+def r7_filter_last(ctx, stm):
+    """The object that the fallback filter accepted is the object that is drawn: nothing transforms the strategy after it."""
+    from ..cfg import cfg_of
+    n = 0
+    for fname in ("field_element_strategy", "series_strategy", "dataframe_strategy", "multiindex_strategy", "index_strategy", "column_strategy"):
+        f = stm.functions.get(fname)
+        if f is None:
+            continue
+        scopes = [f] + list(f.nested.values())
+        fallbacks = {name for g in scopes for name, h in g.nested.items() if _is_fallback_def(h)}
+        if not fallbacks:
+            continue
+        for g in scopes:
+            cfg = cfg_of(g.node)
+            filt, trans = [], []
+            for s in function_stmts(g):
+                if not (isinstance(s, ast.Assign) and len(s.targets) == 1 and isinstance(s.targets[0], ast.Name)):
+                    continue
+                t = s.targets[0].id
+                v = s.value
+                if not (isinstance(v, ast.Call) and t in {x.id for x in ast.walk(v) if isinstance(x, ast.Name)}):
+                    continue
+                if isinstance(v.func, ast.Name) and v.func.id in fallbacks:
+                    filt.append((t, s))
+                elif isinstance(v.func, ast.Attribute) and v.func.attr == "filter":
+                    continue
+                elif any(k.arg is None and txt(k.value).endswith(".statistics") for k in v.keywords):
+                    continue  # chaining of the next check's strategy: restricts its parent (decided by R3), never transforms drawn values
+                else:
+                    trans.append((t, s))
+            for t, s in filt:
+                n += 1
+                reach = cfg.reachable(cfg.node_of(s).id, skip_labels=("exc", "fin-exc"))
+                late = [x for tt, x in trans if tt == t and cfg.node_of(x).id in reach and x is not s]
+                ctx.ob("R7", g, f"{fname}: `{txt(s)[:70]}` is the last transformation of `{t}`", not late,
+                       "every later rebinding is another filter" if not late else
+                       f"`{txt(late[0])[:80]}` (line {late[0].lineno}) transforms the strategy after the check-based filter: the filter "
+                       "accepted an object (before null masks / index / mapping) that is not the one finally drawn, so draws can violate the check",
+                       g.loc(s))
+    if n == 0:
+        raise AnalysisError("no check-based fallback filter found in the strategies module")
+
+
 def run(ctx):
     ix = ctx.ix
     stm = ix.module(ST)
@@ -457,5 +569,6 @@ def run(ctx):
             detail = (f"fallback filters by the check itself; {len(called)} call site(s)" if ok else
                       f"returns={len(rets)}, filtering returns={len(filt)}, uses check={uses_check}, call sites={len(called)}")
         ctx.ob("R5", f, f"{fname}: checks without a strategy are enforced by filtering", ok, detail)
+    r7_filter_last(ctx, stm)
     ctx.assume("hypothesis strategies honour min_value/max_value/exclude_min/exclude_max, st.text sizes, from_regex and filter")
     ctx.assume("hypothesis.internal.filtering.min_len/max_len(size, x) mean len(x) >= size / len(x) <= size")
